@@ -48,6 +48,9 @@ pub struct Preset {
     pub no_del_on_variable_paths: bool,
     pub no_effects_in_call_args: bool,
     pub no_closure_outer_assign: bool,
+    /// leave out the program shapes that run into the open kind-level findings of C19 (arrays
+    /// whose known indices may be missing, negative indices in assignments)
+    pub avoid_kind_findings: bool,
 }
 
 pub const BASE: Preset = Preset {
@@ -66,6 +69,7 @@ pub const BASE: Preset = Preset {
     no_del_on_variable_paths: false,
     no_effects_in_call_args: false,
     no_closure_outer_assign: false,
+    avoid_kind_findings: false,
 };
 
 #[derive(Clone, Debug, Serialize, Deserialize)]
@@ -149,7 +153,7 @@ impl<'a> B<'a> {
         match self.c.below(8) {
             0 => p.push(Seg::F(FIELDS[self.c.below(4)].to_string())),
             1 => p.push(Seg::I(self.c.below(3) as i64)),
-            2 => p.push(Seg::I(-1 - self.c.below(2) as i64)),
+            2 if !self.p.avoid_kind_findings => p.push(Seg::I(-1 - self.c.below(2) as i64)),
             _ => {}
         }
         p
@@ -177,7 +181,7 @@ impl<'a> B<'a> {
 
     /// an expression that can fail at runtime and has type `ty` when it succeeds
     fn fallible(&mut self, ty: Ty, d: usize) -> E {
-        let src = if self.c.chance(3, 4) { E::Ev(self.ev_path()) } else { self.expr(Ty::Any, d.saturating_sub(1)) };
+        let src = if self.c.chance(3, 4) { E::Ev(self.ev_path()) } else { self.arg(Ty::Any, d.saturating_sub(1)) };
         let call = |f: &str, a: E| E::Call { f: f.to_string(), bang: false, args: vec![(None, a)], closure: None };
         match ty {
             Ty::Int => match self.c.below(3) {
@@ -236,7 +240,7 @@ impl<'a> B<'a> {
             let dflt = if self.c.chance(1, 3) { self.expr(ty, d1) } else { self.default_of(ty) };
             return E::Bin(BinOp::Err, Box::new(f), Box::new(dflt));
         }
-        if choice == 1 {
+        if choice == 1 && !(self.p.avoid_kind_findings && ty == Ty::Arr) {
             // conditional
             let p = self.expr(Ty::Bool, d1);
             let a = self.branch_block(ty, d1);
@@ -266,24 +270,24 @@ impl<'a> B<'a> {
                 }
                 2 => {
                     let t = [Ty::Str, Ty::Arr, Ty::Obj][self.c.below(3)];
-                    call1("length", self.expr(t, d1))
+                    call1("length", self.arg(t, d1))
                 }
-                3 => call1("strlen", self.expr(Ty::Str, d1)),
+                3 => call1("strlen", self.arg(Ty::Str, d1)),
                 _ => self.lit(Ty::Int),
             },
             Ty::Float => match self.c.below(4) {
                 0 => E::Bin(BinOp::Add, Box::new(self.expr(Ty::Float, d1)), Box::new(self.expr(Ty::Int, d1))),
                 1 => E::Bin(BinOp::Div, Box::new(self.expr(Ty::Int, d1)), Box::new(E::Lit(TV::Int(2)))),
-                2 => call1("to_float", self.expr(Ty::Int, d1)),
+                2 => call1("to_float", self.arg(Ty::Int, d1)),
                 _ => self.lit(Ty::Float),
             },
             Ty::Str => match self.c.below(6) {
                 0 => E::Bin(BinOp::Add, Box::new(self.expr(Ty::Str, d1)), Box::new(self.expr(Ty::Str, d1))),
-                1 => call1("upcase", self.expr(Ty::Str, d1)),
-                2 => call1("downcase", self.expr(Ty::Str, d1)),
+                1 => call1("upcase", self.arg(Ty::Str, d1)),
+                2 => call1("downcase", self.arg(Ty::Str, d1)),
                 3 => {
                     let t = [Ty::Int, Ty::Bool, Ty::Str, Ty::Float][self.c.below(4)];
-                    call1("to_string", self.expr(t, d1))
+                    call1("to_string", self.arg(t, d1))
                 }
                 _ => self.lit(Ty::Str),
             },
@@ -306,7 +310,7 @@ impl<'a> B<'a> {
                 5 => E::Exists(Target::Ev(self.ev_path())),
                 6 => {
                     let f = ["is_string", "is_integer", "is_null", "is_array", "is_object", "is_boolean"][self.c.below(6)];
-                    call1(f, self.expr(Ty::Any, d1))
+                    call1(f, self.arg(Ty::Any, d1))
                 }
                 7 => E::Bin(BinOp::Eq, Box::new(E::Ev(vec![Seg::F("flag".into())])), Box::new(E::Lit(TV::Bool(true)))),
                 _ => self.lit(Ty::Bool),
@@ -316,7 +320,7 @@ impl<'a> B<'a> {
                 0 => E::Call {
                     f: "push".into(),
                     bang: false,
-                    args: vec![(None, self.expr(Ty::Arr, d1)), (None, self.pure_expr_any(d1))],
+                    args: vec![(None, self.arg(Ty::Arr, d1)), (None, self.pure_expr_any(d1))],
                     closure: None,
                 },
                 1 | 2 => {
@@ -363,6 +367,18 @@ impl<'a> B<'a> {
                 _ => E::Obj(vec![("a".into(), self.lit(Ty::Int))]),
             },
             Ty::Any => unreachable!(),
+        }
+    }
+
+    /// a call argument: pure when the preset forbids effects inside arguments
+    fn arg(&mut self, ty: Ty, d: usize) -> E {
+        if self.p.no_effects_in_call_args {
+            self.pure += 1;
+            let e = self.expr(ty, d);
+            self.pure -= 1;
+            e
+        } else {
+            self.expr(ty, d)
         }
     }
 
@@ -495,7 +511,9 @@ impl<'a> B<'a> {
     fn closure_of(&mut self, f: &str, coll_ty: Ty, d: usize) -> E {
         let coll_ty = if coll_ty == Ty::Arr || coll_ty == Ty::Obj { coll_ty } else if self.c.chance(1, 2) { Ty::Arr } else { Ty::Obj };
         self.pure += 1;
-        let coll = match self.c.below(3) {
+        // a failing closure over a literal array yields a union of arrays of different lengths
+        let literal_ok = !(self.p.avoid_kind_findings && coll_ty == Ty::Arr);
+        let coll = match if literal_ok { self.c.below(3) } else { 1 + self.c.below(2) } {
             0 => {
                 // literal collection with a few elements
                 let n = 1 + self.c.below(3);
@@ -553,6 +571,12 @@ impl<'a> B<'a> {
             _ => self.any_ty(),
         };
         let mut body = Vec::new();
+        // with the switch on, closure bodies have no effects on outer variables or the targets
+        // (the compiler does not apply them to the type state: known finding D08)
+        let pure_body = self.p.no_closure_outer_assign;
+        if pure_body {
+            self.pure += 1;
+        }
         if self.c.chance(2, 3) {
             body.push(self.stmt(d));
         }
@@ -571,6 +595,9 @@ impl<'a> B<'a> {
             body.push(last);
         } else {
             body.push(self.expr(body_ty, d));
+        }
+        if pure_body {
+            self.pure -= 1;
         }
         self.in_closure -= 1;
         self.scopes.pop();
